@@ -337,7 +337,7 @@ impl<'a> Visitor for FaultVisitor<'a> {
         let after = cx.sys.m.clone();
         let jseg: Vec<JOp> = {
             let t = cx.sys.target_ref(&op);
-            let w = t.w.lock().unwrap();
+            let w = t.w.lock().unwrap_or_else(|e| e.into_inner());
             w.journal[cx.jstart..].to_vec()
         };
         let nops_end = env::nops(&cx.sys.target_ref(&op).w);
@@ -425,7 +425,7 @@ impl<'a> FaultVisitor<'a> {
             if !o.is_ok() {
                 continue; // reported by continuation()
             }
-            let jseg: Vec<JOp> = core.w.lock().unwrap().journal[j0..].to_vec();
+            let jseg: Vec<JOp> = core.w.lock().unwrap_or_else(|e| e.into_inner()).journal[j0..].to_vec();
             drop(core);
             let mut img = image.clone();
             for p in 0..=jseg.len() {
@@ -507,7 +507,7 @@ impl<'a> FaultVisitor<'a> {
             }
             let tw = sys.target_ref(&op).w.clone();
             {
-                let mut w = tw.lock().unwrap();
+                let mut w = tw.lock().unwrap_or_else(|e| e.into_inner());
                 if w.nops != n0 {
                     // nondeterminism in the harness would be a machinery error
                     eprintln!("harness: storage-op count diverged while replaying a prefix ({} vs {})", w.nops, n0);
@@ -518,7 +518,7 @@ impl<'a> FaultVisitor<'a> {
             }
             let out = sys.exec_real(&op);
             let (failed_kind, _nops_now) = {
-                let mut w = tw.lock().unwrap();
+                let mut w = tw.lock().unwrap_or_else(|e| e.into_inner());
                 w.fail_at = None;
                 (w.failed_kind.take(), w.nops)
             };
@@ -584,7 +584,7 @@ impl<'a> FaultVisitor<'a> {
             }
             let ww = sys.wr.w.clone();
             {
-                let mut w = ww.lock().unwrap();
+                let mut w = ww.lock().unwrap_or_else(|e| e.into_inner());
                 if w.nops != n0 {
                     eprintln!("harness: storage-op count of the writer diverged while replaying a prefix ({} vs {})", w.nops, n0);
                     std::process::exit(2);
@@ -594,7 +594,7 @@ impl<'a> FaultVisitor<'a> {
             }
             let out = sys.exec_real(&op);
             let failed_kind = {
-                let mut w = ww.lock().unwrap();
+                let mut w = ww.lock().unwrap_or_else(|e| e.into_inner());
                 w.fail_at = None;
                 w.failed_kind.take()
             };
